@@ -49,6 +49,20 @@ func encType(t types.Type) (s string) {
 		return "-"
 	}
 	r := t.Root()
+	// a type that is not the global type object itself (it is reached through a type variable, or
+	// is a copy made by the type checker) is marked: codegen's comparison case switches on the
+	// identity of the node's type, not on its root
+	if _, rootVar := r.(*types.Variable); !rootVar {
+		identical := t == types.Int || t == types.Float || t == types.String || t == types.Bool ||
+			t == types.Pattern || t == types.None || t == types.Buckets || t == types.Undef
+		if !identical {
+			defer func() {
+				if s != "Error" && s != "Dim" && s != "Other" && s != "?" {
+					s += "~"
+				}
+			}()
+		}
+	}
 	switch {
 	case types.IsTypeError(r):
 		return "Error"
